@@ -45,6 +45,7 @@ type KnownFinding struct {
 }
 
 type Report struct {
+	Undecided []string `json:"-"`
 	Prop        string
 	Tier        string
 	Seed        int64
@@ -93,10 +94,13 @@ func (r *Report) note(format string, args ...interface{}) {
 
 // floor asserts that a rule found its subject: fewer than min resolved anchors/sites means the
 // rule would pass vacuously, which is "cannot decide", not a pass.
+// floor: a rule that no longer finds its subject cannot pass.  The failure is recorded and the
+// remaining rules of the property still run: what they report is printed as well, and the
+// property ends undecided (exit 2) unless a violation was found (exit 1).
 func (r *Report) floor(what string, got, min int) {
 	r.Counts[what] = got
 	if got < min {
-		cannotDecide("vacuity floor: %s = %d, expected at least %d", what, got, min)
+		r.Undecided = append(r.Undecided, fmt.Sprintf("vacuity floor: %s = %d, expected at least %d", what, got, min))
 	}
 }
 
@@ -264,4 +268,13 @@ func (r *Report) finish(verifDir string, evidencePath string, verbose bool) int 
 		return 1
 	}
 	return 0
+}
+
+func (r *Report) hasViolations() bool {
+	for _, o := range r.Obligs {
+		if o.Verdict == Violation {
+			return true
+		}
+	}
+	return false
 }
